@@ -1,0 +1,52 @@
+//go:build verif
+
+package gabi
+
+import (
+	"bytes"
+	"encoding/json"
+	"os"
+	"runtime"
+	"strconv"
+	"sync"
+)
+
+// With the build tag verif and VERIF_TRACE=<file> set, the package's own tests record the operations
+// on the non-revocation cache of every Credential (through the verifHook points) as ndjson, one
+// event per line: goroutine id, credential, hook point, builder. The verification harness validates
+// the recording against its specification of the cache protocol.
+func init() {
+	path := os.Getenv("VERIF_TRACE")
+	if path == "" {
+		return
+	}
+	f, err := os.OpenFile(path, os.O_CREATE|os.O_WRONLY|os.O_APPEND, 0o644)
+	if err != nil {
+		panic(err)
+	}
+	var mu sync.Mutex
+	ids := map[any]int{}
+	id := func(x any) int {
+		if n, ok := ids[x]; ok {
+			return n
+		}
+		ids[x] = len(ids) + 1
+		return ids[x]
+	}
+	SetVerifHook(func(point string, args ...any) {
+		var buf [64]byte
+		n := runtime.Stack(buf[:], false)
+		g, _ := strconv.ParseInt(string(bytes.Fields(buf[:n])[1]), 10, 64)
+		mu.Lock()
+		defer mu.Unlock()
+		ev := map[string]any{"g": g, "ev": point}
+		if len(args) > 0 {
+			ev["cred"] = id(args[0])
+		}
+		if len(args) > 1 {
+			ev["b"] = id(args[1])
+		}
+		b, _ := json.Marshal(ev)
+		f.Write(append(b, '\n'))
+	})
+}
